@@ -55,6 +55,26 @@ def P10():
                                                                 ("imap", "list", 1, 1)])
 
 
+def D5():
+    # quota 2, one worker, three calls; the retirement notice may be delivered late (multiprocessing.Queue feeder)
+    return C("D5", kind="factory", quota=2, workers=1, delayed_put=True,
+             calls=[("imap", "list", 2, 1), ("imap", "list", 2, 1), ("imap", "list", 1, 1)])
+
+
+def D6():
+    return C("D6", kind="factory", quota=1, workers=2, wq=1, delayed_put=True, calls=[("imap_unordered", "list", 2, 1), ("imap", "list", 1, 1)])
+
+
+def P5w():
+    # like P5, on a pool that has already handed out a thousand worker ids
+    return C("P5w", kind="factory", quota=1, workers=1, wid_offset=1000, calls=[("imap", "list", 2, 1), ("imap", "list", 2, 1)])
+
+
+def P11():
+    # both generators are created up front and then consumed one after the other
+    return C("P11", workers=1, precreate=True, calls=[("imap_unordered", "list", 2, 1), ("imap", "list", 1, 1)])
+
+
 def L1():
     return C("L1", workers=1, calls=[("imap", "lazy", 1, 1)])
 
